@@ -20,6 +20,7 @@ import Driver.Util
 import Driver.EvmLifecycle
 import Driver.TxValidate
 import Driver.InspectorHooks
+import Driver.Static
 /-! Line-protocol driver: one request per line on stdin, one reply per line on stdout.
 Stateless components are dispatched on the first token. A stateful component `X` adds a field
 `x : Driver.X.St := Driver.X.St.init` to `DState`, resets it on `begin x …` and threads it through
@@ -77,6 +78,7 @@ def step (st : DState) (line : String) : DState × String :=
   | "ne" :: r => let (s, out) := TxValidate.handleNe st.txv r; ({ st with txv := s }, out)
   | "begin" :: "hooks" :: r => let (s, o) := Driver.InspectorHooks.begin r; ({ st with hooks := s }, o)
   | "hk" :: r => let (s, o) := Driver.InspectorHooks.handle st.hooks r; ({ st with hooks := s }, o)
+  | "static" :: r => (st, Driver.Static.handle r)
   | _ => (st, "bad-op")
 
 partial def loop (hin hout : IO.FS.Stream) (st : DState) : IO Unit := do
